@@ -22,6 +22,10 @@ Rec(h) == hist' = Append(hist, h)
 
 SigClass == {"tamper", "forged", "foreign", "ctx"}
 
+\* an ack / clear that names a message actually in flight (everything else is counted against the odd budget)
+AckUseful(c, st, n) == st = "cur" /\ Local(c) = c /\ Remote(c) # None /\ trk[c].recvSent = n
+ClearUseful(c, st, n) == st = "cur" /\ Local(c) = c /\ Remote(c) # None /\ (trk[Remote(c)].recv = n \/ trk[Remote(c)].recvSent = n)
+
 Odd(b) == IF b THEN odd < MaxOdd /\ odd' = odd + 1 ELSE odd' = odd
 
 Stim ==
@@ -35,9 +39,9 @@ Stim ==
         \/ \E c \in Call, sg \in SigClass :
               HandleSend(c, "cur", 1, FALSE) /\ Odd(TRUE) /\ Rec([a |-> "send", c |-> c, st |-> "cur", n |-> 1, sig |-> sg, w |-> w])
         \/ \E c \in Call, n \in 1..MaxSeq, st \in Stamp :
-              HandleAck(c, st, n) /\ Odd(st # "cur") /\ Rec([a |-> "ack", c |-> c, st |-> st, n |-> n, w |-> w])
+              HandleAck(c, st, n) /\ Odd(~AckUseful(c, st, n)) /\ Rec([a |-> "ack", c |-> c, st |-> st, n |-> n, w |-> w])
         \/ \E c \in Call, n \in 1..MaxSeq, st \in Stamp :
-              HandleClear(c, st, n) /\ Odd(st # "cur") /\ Rec([a |-> "clear", c |-> c, st |-> st, n |-> n, w |-> w])
+              HandleClear(c, st, n) /\ Odd(~ClearUseful(c, st, n)) /\ Rec([a |-> "clear", c |-> c, st |-> st, n |-> n, w |-> w])
         \/ \E l \in LCall : ListenRegister(l) /\ Odd(FALSE) /\ Rec([a |-> "lreg", c |-> l, w |-> w])
         \/ \E l \in LCall : ListenCancel(l) /\ Odd(FALSE) /\ Rec([a |-> "lcancel", c |-> l, w |-> w])
 
